@@ -116,6 +116,48 @@ pub fn check_decode(shape: &Shape, input: &[u8], canonical: bool, l: &mut Local)
     if !same {
         return Err(fail("decode", format!("from_bytes ({:?}) disagrees with take_from_bytes", got2.map(|d| d.0)), cj()));
     }
+    // the byte-reader entry points accept exactly the same inputs (short reads and Interrupted are not errors)
+    for eio in [false, true] {
+        let mut scratch = vec![0u8; input.len() + 16];
+        let rd = crate::iodoubles::SharedReader::new(crate::iodoubles::ChunkReader::new(
+            input,
+            crate::iodoubles::Schedule { chunks: vec![2, 1, 5], interrupt_every: if input.len() % 2 == 0 { 2 } else { 3 } },
+            crate::iodoubles::Fault::None,
+        ));
+        let (r3, log3) = with_shape(shape, || {
+            no_panic(|| {
+                if eio {
+                    postcard::from_eio::<Dyn, _>((rd.clone(), &mut scratch[..])).map(|(d, _)| d)
+                } else {
+                    postcard::from_io::<Dyn, _>((rd.clone(), &mut scratch[..])).map(|(d, _)| d)
+                }
+            })
+        });
+        let who = if eio { "from_eio" } else { "from_io" };
+        let got3 = r3.map_err(|p| fail("decode", format!("{} panicked: {}", who, p), cj()))?;
+        if log3.skipped_zero_width {
+            continue;
+        }
+        let ok = match (&reference, &got3) {
+            (Ok(d), Ok(Dyn(v))) => *v == d.value && rd.pos() == d.consumed,
+            (Err(_), Err(_)) => true,
+            _ => false,
+        };
+        if !ok {
+            return Err(fail(
+                "decode",
+                format!(
+                    "{} through a reader delivering short pieces with Interrupted in between gave {:?} after {} bytes; the specification says {:?} (input {})",
+                    who,
+                    got3.as_ref().map(|d| &d.0),
+                    rd.pos(),
+                    reference.as_ref().map(|d| (&d.value, d.consumed)),
+                    hex(input)
+                ),
+                cj(),
+            ));
+        }
+    }
     l.sample(|| format!("{:?} <= {}  :  {:?}", shape, hex(&input[..input.len().min(40)]), reference.as_ref().map(|d| (&d.value, d.consumed)).map_err(|e| *e)));
     Ok(())
 }
@@ -414,9 +456,42 @@ pub fn run(ctx: &Ctx) {
         });
     }
 
+    // collections whose keys / values / elements occupy no bytes at all: the count alone is the encoding
+    {
+        use crate::dynshape::Name;
+        let unit_map = Shape::Map(Box::new(Shape::Unit), Box::new(Shape::Unit));
+        let shapes: Vec<Shape> = vec![
+            unit_map.clone(),
+            Shape::Map(Box::new(Shape::UnitStruct(Name("K"))), Box::new(Shape::Tuple(vec![]))),
+            Shape::Map(Box::new(Shape::Unit), Box::new(Shape::U8)),
+            Shape::Map(Box::new(Shape::U8), Box::new(Shape::Unit)),
+            Shape::Seq(Box::new(Shape::Unit)),
+            Shape::Seq(Box::new(Shape::Tuple(vec![Shape::Unit, Shape::Unit]))),
+            Shape::Option(Box::new(unit_map.clone())),
+            Shape::Tuple(vec![unit_map.clone(), Shape::U8]),
+            Shape::Tuple(vec![Shape::U8, unit_map.clone()]),
+            Shape::Seq(Box::new(unit_map)),
+        ];
+        let tails: [&[u8]; 5] = [&[], &[0xAA], &[0x00, 0x00], &[0x01], &[0x02, 0x07, 0x09]];
+        let shapes = &shapes;
+        ctx.par_range("zero-width-collections", (shapes.len() * 8 * tails.len()) as u64, move |i, l| {
+            let i = i as usize;
+            let shape = &shapes[i % shapes.len()];
+            let count = (i / shapes.len()) % 8;
+            let tail = tails[i / (shapes.len() * 8)];
+            let mut input = vec![count as u8];
+            input.extend_from_slice(tail);
+            l.class("zero-width-collection");
+            check_decode(shape, &input, false, l)?;
+            // behind an option tag / a leading byte as well
+            let mut in2 = vec![0x01, count as u8];
+            in2.extend_from_slice(tail);
+            check_decode(shape, &in2, false, l)
+        });
+    }
     // long payloads: counts that need 3- and 4-byte varints, whole, truncated and padded
     {
-        let lens: Vec<usize> = vec![16383, 16384, 16385, 20000, 65536, 2097151, 2097152];
+        let lens: Vec<usize> = vec![16383, 16384, 16385, 20000, 32768, 40000, 49152, 65536, 81920, 2097151, 2097152, 3000000, 4194304];
         let lens_ref = &lens;
         ctx.par_range("long-payloads", lens.len() as u64 * 4, move |i, l| {
             let n = lens_ref[(i / 4) as usize];
